@@ -18,6 +18,10 @@ def plan(prop, tier, models):
             elif mid.startswith("c15-protocol"):
                 # scripts of length 5 are 70 % of the family's cost: bound 1 here, 2-3 in the thorough tier
                 b = [(1, 30)] if "/len5/" in mid else [(2, 30)]
+            elif mid.startswith("c15-frontier-seq"):
+                # sequential enumerations (one single-threaded loom execution per case); the largest
+                # range is left to the thorough tier
+                b = [] if mid.endswith("/n200") else [(None, 60)]
             elif mid.startswith("c15-frontier"):
                 # the 5-thread models do not finish bound 2 within the quick budget (reported as
                 # incomplete before); bound 1 completes, bound 2-3 is the thorough tier
@@ -33,6 +37,8 @@ def plan(prop, tier, models):
                 b = [(4, 900)]
             elif mid.startswith("c15-protocol"):
                 b = [(3, 300)]
+            elif mid.startswith("c15-frontier-seq"):
+                b = [(None, 600)]
             elif mid.startswith("c15-frontier"):
                 b = [(3, 900)] if threads <= 4 else [(2, 900)]
             else:
